@@ -163,3 +163,24 @@ v('c03-complement', ['C03'], RX, """                let d1 = self.deriv(e1, c);
                 d1""", 'C03.R1/compute_derivative/arm:Complement')
 v('c03-deriv-class-of', ['C03'], RX, "        let cid = e.class_of_char(c);\n        self.cached_deriv(e, cid)", "        let cid = e.class_of_char(c + 1);\n        self.cached_deriv(e, cid)", 'C03.R3/deriv')
 v('c03-str-deriv', ['C03'], RX, "s.iter().fold(e, |r, &c| self.char_derivative(r, c))", "s.iter().fold(e, |r, &c| self.char_derivative(e, c))", 'C03.R6')
+
+# ---- C01
+v('prefix-C01-mk_loop-empty', ['C01'], RX, """                BaseRegLan::Empty => {
+                    if range.start() == 0 {
+                        self.epsilon
+                    } else {
+                        self.empty
+                    }
+                }""", "                BaseRegLan::Empty => self.empty,", 'C01.R3/mk_loop/arm:Empty')
+v('c01-nullable-loop', ['C01'], RX, "BaseRegLan::Loop(e, range) => range.start() == 0 || e.nullable,", "BaseRegLan::Loop(e, range) => range.start() == 0 && e.nullable,", 'C01.R1/is_nullable/arm:Loop')
+v('c01-sigma-star-rule', ['C01'], RX, "if e1.nullable && e2 == self.sigma_star {", "if e2 == self.sigma_star {", 'C01.R4/concat')
+v('c01-inter-eps-any', ['C01'], RX, "if v.iter().all(|&r| r.nullable) {\n                self.epsilon", "if v.iter().any(|&r| r.nullable) {\n                self.epsilon", 'C01.R3/make_inter')
+v('c01-mul-exact-swapped', ['C01'], RX, "BaseRegLan::Loop(x, x_rng) if x_rng.right_mul_is_exact(&range) => {", "BaseRegLan::Loop(x, x_rng) if range.right_mul_is_exact(x_rng) => {", 'C01.R4/mk_loop')
+v('c01-plus-star', ['C01'], RX, "self.mk_loop(e, LoopRange::plus())", "self.mk_loop(e, LoopRange::star())", 'C01.R5/plus')
+v('c01-smt_loop', ['C01'], RX, "        if i <= j {\n            self.mk_loop(e, LoopRange::finite(i, j))", "        if i < j {\n            self.mk_loop(e, LoopRange::finite(i, j))", 'C01.R5/smt_loop')
+v('c01-diff', ['C01'], RX, "        let comp_e2 = self.complement(e2);\n        self.inter(e1, comp_e2)", "        let comp_e2 = self.complement(e1);\n        self.inter(e2, comp_e2)", 'C01.R5/diff')
+v('c01-concat-loop-add', ['C01'], RX, "self.make(BaseRegLan::Loop(x, x_rng.add(y_rng)))", "self.make(BaseRegLan::Loop(x, x_rng.mul(y_rng)))", 'C01.R4/concat')
+v('c01-concat-rr', ['C01'], RX, "_ if *e1 == *e2 => self.make(BaseRegLan::Loop(e1, LoopRange::point(2))),", "_ if *e1 == *e2 => self.make(BaseRegLan::Loop(e1, LoopRange::point(3))),", 'C01.R4/concat')
+v('c01-wrapper-swap', ['C01'], 'src/smt_regular_expressions.rs', "MANAGER.with(|m| m.borrow_mut().diff(r1, r2))", "MANAGER.with(|m| m.borrow_mut().diff(r2, r1))", 'C01.R5/wrapper:re_diff')
+v('c01-smt_range', ['C01'], RX, "            if c1 <= c2 {\n                return self.char_set(CharSet::range(c1, c2));", "            if c1 < c2 {\n                return self.char_set(CharSet::range(c1, c2));", 'C01.R5/smt_range')
+v('c01-make-new-const', ['C01'], RX, "let sigma_plus = store.make(BaseRegLan::Loop(sigma, LoopRange::plus()));", "let sigma_plus = store.make(BaseRegLan::Loop(sigma, LoopRange::star()));", 'C01.R2')
